@@ -66,7 +66,7 @@ def lean_file(c):
             n = c['nx'] * c['ny'] * b['nz']
             unit = (b['unit'] if c['unit_in_file'] else 'unitless').encode().ljust(40)
             h2 = (b['cat'].encode().ljust(40) + struct.pack('>i', b['tid']) + unit + struct.pack('>dd', tau0, tau1) + b' ' * 40 +
-                  struct.pack('>6i', c['nx'], c['ny'], b['nz'], *c['start']) + struct.pack('>i', 4 * n + 8))
+                  struct.pack('>6i', c['nx'], c['ny'], b['nz'], *b.get('start', c['start'])) + struct.pack('>i', 4 * n + 8))
             d = struct.pack('>%dI' % n, *c['data'][t][bi])
             bl.append('%s:%s:%s' % (w(h1), w(h2), w(d) or '-'))
         steps.append(';'.join(bl))
